@@ -705,10 +705,12 @@ class BrownianInterval(brownian_base.BaseBrownian, _Interval):
             start = interval._start
             end = interval._end
             if end - start > piece_length:
-                midway = (end + start) / 2
-                interval._loc(start, midway)
-                _set_points(interval._left_child)
-                _set_points(interval._right_child)
+                # With tol > 0 times live on a grid: stop once the interval cannot be halved on that grid.
+                midway = self._round((end + start) / 2)
+                if start < midway < end:
+                    interval._loc(start, midway)
+                    _set_points(interval._left_child)
+                    _set_points(interval._right_child)
 
         _set_points(self)
 
